@@ -41,9 +41,10 @@ META = {
               ["ChangeCipherSpec is not a handshake message: its direction is pinned by the oracle only where the property's flows pin it (server's final CCS, 0-RTT client CCS)"],
               exhaustive=True,
               exhaustive_note="exhaustive over the finite abstract domain 25 states x 21 message kinds x 2 directions x session-id presence x 256 alert severities (all symbolic); message payload contents bounded to <= 2-byte slices and <= 1-element lists"),
-    "C09": _m(["lists of more than 1 cipher / plaintext records containing messages (thorough tier only)", "bodies of 64 KiB and more (24-bit length field beyond 16 bits)",
+    "C09": _m(["lists of more than 1 cipher / plaintext records containing messages (thorough tier only)", "bodies of 64 KiB and more are not serialized symbolically; their 16/24-bit length prefixes are decided over the full range by the E2 queries on length_be_u16/length_be_u24",
                "re-serialization is argued from determinism + field-wise round trip + the normal-form harness, not executed on parsed values"],
-              ["serializer output is copied to a local array and the asserted header bytes re-imposed as constants before parsing (staging)"]),
+              ["serializer output is copied to a local array and the asserted header bytes re-imposed as constants before parsing (staging)",
+               "E2 length-prefix queries: cookie_factory::gen reports the bytes written and be_u16/be_u24 emit the low 16/24 bits big-endian (dependency semantics)"], e2=True),
     "C10": _m(["bodies longer than 48 bytes; datagrams of several records are C16", "handshake list logic inside a DTLS record (many1 over the dispatcher) is not run"]),
     "C11": _m(["one enclosing context per field"], exhaustive=True, exhaustive_note="each field over its whole 8/16-bit domain; the enclosing structure is one concrete instance"),
     "C12": _m(["lookup by name for arbitrary strings (one registry name with one symbolic byte, thorough tier)", "names longer than 64 bytes"],
